@@ -18,3 +18,22 @@ Definition probcover_case := (list (list bool) * list bool * nat * list (list Z)
 Definition check_probcover (c : probcover_case) : bool :=
   let '(edges, is_cand, k, noises, t) := c in
   trace_eqb (probcover_loop edges is_cand k noises) t.
+
+(* loops masking an oracle row: (n, cs, score table: one candidate-space score vector per step, k, noises, trace) *)
+Definition oracle_case := (bool * nat * list nat * list (list val) * nat * list (list Z) * list (nat * list val))%type.
+Definition check_oracle_loop (c : oracle_case) : bool :=
+  let '(cand_space, n, cs, table, k, noises, t) := c in
+  let score := fun prev : list nat => nth (length prev) table [] in
+  if cand_space
+  then (* DiscriminativeAL / FourDs: the loop runs over the candidates (noise of their number), then remapped *)
+       let m := length cs in trace_eqb (remap n cs (oracle_loop m (seq 0 m) score k noises)) t
+  else (* Clue / DropQuery: rows over all samples *)
+       trace_eqb (oracle_loop n cs score k noises) t.
+
+(* GreedySamplingX: (distances cand position x sample index, n_samples, labeled, candidate_indices, m, k,
+   noises, remap?, n, mapping, trace) *)
+Definition gsx_case := (list (list Z) * nat * list nat * list nat * nat * nat * list (list Z) * bool * nat * list nat * list (nat * list val))%type.
+Definition check_gsx (c : gsx_case) : bool :=
+  let '(D, ns, labeled, cidxl, m, k, noises, rm, n, mapping, t) := c in
+  let t0 := gsx_loop (mat_get D) ns labeled (fun c => nth c cidxl O) m k noises in
+  trace_eqb (if rm then remap n mapping t0 else t0) t.
